@@ -49,9 +49,9 @@ def run(ctx):
     ctx.replay(scen, X.replay_state, nontrivial=lambda e, p: True)
     ctx._phase("replay", t0)
     ctx.cov["exhaustive"] = True
-    n = ctx.pick(100, 5000)
+    n = ctx.pick(100, 1000)
     t0 = time.time()
-    traces = framework.pool_map(X.random_session, [(i + 1, ctx.seed * 1000003 + i, ctx.pick(20, 40)) for i in range(n)])
+    traces = framework.pool_map(X.random_session, [(i + 1, ctx.seed * 1000003 + i, ctx.pick(20, 30)) for i in range(n)])
     ctx._phase("record", t0)
     t0 = time.time()
     ctx.validate("websec", "Trace_Xsrf", "Trace_Xsrf.cfg", traces, sig_fn=_trace_sig, shards=ctx.pick(6, None))
